@@ -150,6 +150,7 @@ func validHTML(b []byte) (bool, string, bool) {
 	return true, "", false
 }
 
+var c09AwaitIdent = regexp.MustCompile(`\bawait[ \t]*[\r\n;,)=]`)
 var c09SVGStyleAmp = regexp.MustCompile(`(?is)<style\b[^>]*>(?:[^<]|<!\[CDATA\[.*?\]\]>)*&|\bstyle\s*=\s*(?:"[^"]*&|'[^']*&)`)
 var c09TypeInnerSpace = regexp.MustCompile(`(?i)type\s*=\s*("[^"]*\S\s+\S[^"]*"|'[^']*\S\s+\S[^']*')`)
 var c09ForeignBareAttr = regexp.MustCompile(`(?i)<(math|svg)\b`)
@@ -254,6 +255,9 @@ func C09(run *core.Run) {
 		}
 		if (l.name == "js" || l.name == "html") && c09LetIdent.Match(in) {
 			return "GUARD:js-let-identifier", nil
+		}
+		if (l.name == "js" || l.name == "html") && c09AwaitIdent.Match(in) {
+			return "GUARD:js-await-identifier", nil
 		}
 		if l.name == "js" && opts.JS.KeepVarNames && c09ElseLexical.Match(in) {
 			return "GUARD:js-keepvarnames-else-unscoped", nil
